@@ -55,6 +55,17 @@ func concCmd(args []string) error {
 	enc.Encode(cat.header())
 	rnd := rand.New(rand.NewSource(*seed))
 	total := 0
+	if *mode == "racesweep" {
+		// first clause of C08 only: every reading method against every writing method on one repository,
+		// no recording; the Go race detector (harness built with -race) is the observer
+		for _, st := range strings.Split(*stacks, ";") {
+			if err := raceSweep(cat, rnd, st, *n); err != nil {
+				return err
+			}
+		}
+		fmt.Printf("{\"histories\":0,\"racesweep\":true}\n")
+		return nil
+	}
 	if *mode == "directed" {
 		sf, err := os.Open(*sched)
 		if err != nil {
@@ -398,4 +409,51 @@ func goid() int64 {
 	var id int64
 	fmt.Sscanf(string(buf[:n]), "goroutine %d ", &id)
 	return id
+}
+
+// raceSweep runs, for a number of rounds, goroutines that only read (every reading and listing
+// method, on the registry and on blob readers) against goroutines that only write (pushes, tags,
+// deletes, mounts, uploads) over one small key space.  Nothing is recorded.
+func raceSweep(cat *Catalog, rnd *rand.Rand, stack string, rounds int) error {
+	for round := 0; round < rounds; round++ {
+		env := &stackEnv{imm: round%2 == 1}
+		top, rest, err := env.build(stack)
+		if err != nil || strings.TrimSpace(rest) != "" {
+			return fmt.Errorf("stack %q: %v", stack, err)
+		}
+		w := &world{cat: cat, top: top, writers: map[string]BlobWriterT{}, ids: map[string]string{}}
+		ctx := context.Background()
+		for _, op := range []Op{{Op: "PushBlob", R: "r1", C: "b1", DD: "b1", DS: 1}, {Op: "PushBlob", R: "r1", C: "b2", DD: "b2", DS: 2},
+			{Op: "PushManifest", R: "r1", T: "t1", C: "img", MT: "image"}, {Op: "PushBlobChunked", R: "r1", U: "u1"}} {
+			w.exec(ctx, op)
+		}
+		reads := []Op{{Op: "GetBlob", R: "r1", C: "b1"}, {Op: "GetBlobRange", R: "r1", C: "b2", O0: 0, O1: 1}, {Op: "ResolveBlob", R: "r1", C: "b2"},
+			{Op: "GetManifest", R: "r1", C: "img"}, {Op: "ResolveManifest", R: "r1", C: "sub"}, {Op: "GetTag", R: "r1", T: "t1"},
+			{Op: "ResolveTag", R: "r1", T: "t1"}, {Op: "Referrers", R: "r1", C: "img"}, {Op: "ListTags", R: "r1"}, {Op: "ListRepos"},
+			{Op: "UpSize", R: "r1", U: "u1"}}
+		writes := []Op{{Op: "PushManifest", R: "r1", T: "t1", C: "sub", MT: "image"}, {Op: "PushManifest", R: "r1", T: "-", C: "idx", MT: "index"},
+			{Op: "PushManifest", R: "r1", T: "t2", C: "img", MT: "image"}, {Op: "DeleteManifest", R: "r1", C: "sub"}, {Op: "DeleteManifest", R: "r1", C: "idx"},
+			{Op: "DeleteTag", R: "r1", T: "t2"}, {Op: "PushBlob", R: "r2", C: "b1", DD: "b1", DS: 1}, {Op: "MountBlob", From: "r1", R: "r2", C: "b2"},
+			{Op: "DeleteBlob", R: "r2", C: "b1"}, {Op: "Write", R: "r1", U: "u1", Data: []int{1}}, {Op: "Resume", R: "r1", U: "u1", Off: -1},
+			{Op: "Commit", R: "r1", U: "u1", DD: "b1"}, {Op: "PushBlobChunked", R: "r2", U: fmt.Sprintf("v%d", round)}}
+		var wg sync.WaitGroup
+		seed := rnd.Int63()
+		for g := 0; g < 4; g++ {
+			wg.Add(1)
+			go func(g int) {
+				defer wg.Done()
+				r := rand.New(rand.NewSource(seed + int64(g)))
+				ops := reads
+				if g%2 == 1 {
+					ops = writes
+				}
+				for i := 0; i < 60; i++ {
+					w.exec(ctx, ops[r.Intn(len(ops))])
+				}
+			}(g)
+		}
+		wg.Wait()
+		env.close()
+	}
+	return nil
 }
